@@ -156,12 +156,13 @@ func corsObserve(c *restful.Container, cnt *corsCounters, rq corsReq) (proj cors
 	}()
 	proj = corsProj{St: rec.Code, Ran: cnt.ran, Later: cnt.later, Body: rec.Body.String(), Hdr: [][]interface{}{}}
 	keys := []string{}
-	for k := range rec.Header() {
+	wh := wireHeader(rec)
+	for k := range wh {
 		keys = append(keys, k)
 	}
 	sort.Strings(keys)
 	for _, k := range keys {
-		vals := rec.Header()[k]
+		vals := wh[k]
 		if strings.HasPrefix(k, "Access-Control-") {
 			ac = append(ac, []interface{}{k, vals})
 		} else {
